@@ -37,6 +37,9 @@ for id in "${ids[@]}"; do
     C09q) export RACE=1 RACECTL=" "; n=6400; prof=c13; extra=" (controlled race build)";;
     C09r) export RACE=1 RACECTL=" "; n=6400; prof=c05; extra=" (controlled race build)";;
     C09s) export RACE=1 RACECTL=" "; n=9600; prof=c01; extra=" (controlled race build)";;
+    C09u) export RACE=1 RACECTL=" "; n=6400; prof=c09; extra=" (controlled race build)";;
+    C09v) export RACE=1 RACECTL=" "; n=6400; prof=c20; extra=" (controlled race build)";;
+    C09w) export RACE=1 RACECTL=" "; n=6400; prof=c14; extra=" (controlled race build)";;
   esac
   if ! git -C /repo apply --check $d/patch.diff 2>/dev/null; then
     echo -e "$id\t$prop\t$prof\t-\tpatch does not apply to /repo HEAD (superseded by a later fix)" | tee -a $OUT; continue
